@@ -387,7 +387,7 @@ pub fn check(a: &BTreeMap<String, String>) -> i32 {
             "violations_attributed_to_other_properties": merged.other_property_violations,
             "known_findings_seen": known_hits.len(),
             "components": {
-                "real": ["micromap (path dependency on /repo, rebuilt from the working tree, feature verif_hooks on)", "core/std formatting machinery", "serde + bincode 2.0.1 codec (C20 byte-level configuration)"],
+                "real": ["micromap (path dependency on /repo, rebuilt from the working tree, feature verif_hooks on)", "core/std formatting machinery", "serde + bincode 2.0.1 codec (C20 byte-level configuration)", "serde_json codec (C20 text-level configuration: from_slice, from_reader, through serde_json::Value)"],
                 "stubs": ["key/value payload types (Eq, Borrow, Clone, Drop, Default, Debug, Display, Serialize, Deserialize)", "closures and predicates", "source iterators", "fmt::Write sink", "token-level Serializer/Deserializer", "global allocator wrapper", "iterator/drain/entry holder"],
             },
             "extra": extra,
